@@ -73,6 +73,35 @@ pub fn run(rep: &mut Report, thorough: bool) {
             );
             rep.stage(&stage, "base frames x every pair of L2-L4 header fields x reduced value sets (two departures in one frame), monitored", items.len() as u64, t0);
         }
+        // every byte value at every header position of the eliciting base frames (Ethernet, ARP,
+        // IP, ICMP, TCP, UDP headers byte by byte; application bytes are the application checks'
+        // business), as is and with the checksums recomputed the way a sender would
+        {
+            let base = base_frames(&cookies);
+            let keep = ["arp-request", "echo-v4", "echo-v6", "nd-ns-slla", "tcp-syn-v4", "tcp-syn-v6"];
+            let mut plan: Vec<(usize, usize)> = Vec::new();
+            for (bi, b) in base.iter().enumerate() {
+                let want = keep.contains(&b.name.as_str()) || (b.prelude.is_empty() && b.name.starts_with("udp-") && (thorough || b.name.contains("stun")));
+                if !want {
+                    continue;
+                }
+                let hdr = crate::deviate::app_offset(&b.frame).unwrap_or(b.frame.len()).min(b.frame.len());
+                for p in 0..hdr {
+                    plan.push((bi, p));
+                }
+            }
+            let n = plan.len() as u64;
+            sweep_frames(rep, &cfg, &format!("frame-all-byte-values-{}", tag), "eliciting base frames (ARP request, echo v4/v6, ND-NS, SYN v4/v6, UDP STUN v4/v6; thorough: every answered datagram) x every header byte position x all 256 values x {as is, checksums recomputed}", n * 256 * 2, |i| {
+                let d = unrank(i, &[n, 256, 2]);
+                let (bi, p) = plan[d[0] as usize];
+                let mut f = base[bi].frame.clone();
+                f[p] = d[1] as u8;
+                if d[2] == 1 {
+                    refresh_checksums(&mut f);
+                }
+                f
+            });
+        }
         // address alphabets (pseudo-header inputs): every reply kind x client / server address
         // alphabets incl. unspecified, broadcast, multicast, loopback
         {
